@@ -8,7 +8,7 @@ SetToSeq(S) == CHOOSE s \in [1..Cardinality(S) -> S] : \A i, j \in 1..Cardinalit
 \* (a zero-argument definition would be evaluated once by TLC: the random draws take the step number)
 Init == /\ cfg \in Configs
         /\ hist = <<[op |-> "Config", reg |-> SetToSeq(cfg.reg), native |-> SetToSeq(cfg.native)]>> /\ done = FALSE
-RandClient(n) == [op |-> "Client", kind |-> RE({"node", "node", "base", "base", "fetch", "rogue"}), extras |-> RE(ExtrasLists)]
+RandClient(n) == [op |-> "Client", kind |-> RE({"node", "node", "nodeAfter", "nodeBefore", "base", "base", "fetch", "rogue"}), extras |-> RE(ExtrasLists)]
 Step == /\ Len(hist) < Depth
         /\ hist' = Append(hist, IF Len(hist) = Depth - 1 THEN [op |-> "CloseBase"] ELSE RandClient(Len(hist)))
         /\ UNCHANGED cfg /\ done' = FALSE
